@@ -13,7 +13,7 @@ def reset(e):
     return e.get("e") in ("WrInit", "MvInit")
 
 
-def run_wr(ctx, what, seed, n, guard=False, mm=2, big=False, timeout=1500, nomem=False):
+def run_wr(ctx, what, seed, n, guard=False, mm=2, big=False, timeout=1500, nomem=False, extra=()):
     """Run `vh wr` in child processes; returns (trace path, scenarios run, crash events appended)."""
     exe = vlib.build_harness()
     tr = os.path.join(ctx.wd, "wr_%s.ndjson" % what)
@@ -31,6 +31,7 @@ def run_wr(ctx, what, seed, n, guard=False, mm=2, big=False, timeout=1500, nomem
             cmd.append("-big")
         if nomem:
             cmd.append("-nomem")
+        cmd += [str(x) for x in extra]
         try:
             p = subprocess.run(cmd, stdout=subprocess.PIPE, stderr=subprocess.PIPE, text=True, timeout=timeout)
         except subprocess.TimeoutExpired:
@@ -67,9 +68,9 @@ def classify_crash(stderr):
     m = re.search(r"addr=(0x[0-9a-f]+)", stderr)
     g = re.findall(r"GUARD base=(\d+) slot=(\d+) datapages=(\d+) page=(\d+) nslots=(\d+)", stderr)
     where = ""
-    fr = re.findall(r"^(github\.com/couchbase/nitro[^\n(]*)\(", stderr, re.M)
+    fr = re.findall(r"^(github\.com/couchbase/nitro[^\n]*)$", stderr, re.M)
     if fr:
-        where = " in " + fr[0].split("/")[-1]
+        where = " in " + re.sub(r"\([^()]*\)$", "", fr[0].strip()).split("/")[-1]
     if m and g:
         addr = int(m.group(1), 16)
         base, slot, dp, page, ns = map(int, g[-1])
